@@ -241,7 +241,12 @@ func judgeStepCase(c stepCase, rec *hx.Rec, formSeen []int32) string {
 		if formSeen != nil {
 			formSeen[gen.FormOf(ir)]++
 		}
-		sideEffect := len(res.Events) > 2 || (len(res.Events) == 2 && res.Events[1].Kind != ref.EvTaskDie)
+		sideEffect := false
+		for _, e := range res.Events {
+			if e.Kind == ref.EvDec || e.Kind == ref.EvInc || e.Kind == ref.EvWrite {
+				sideEffect = true
+			}
+		}
 		if !(ir.Op == ref.DAT && ir.AM == ref.Immediate && ir.BM == ref.Immediate) || sideEffect {
 			nontrivial = true
 		}
